@@ -4,6 +4,7 @@ import (
 	"fmt"
 	"go/token"
 	"go/types"
+	"sort"
 	"strings"
 
 	"golang.org/x/tools/go/ssa"
@@ -29,6 +30,56 @@ func intOfAmountString(v ssa.Value) ssa.Value {
 		break
 	}
 	return nil
+}
+
+// isCtxOrKeeper: the value is the SDK context or a keeper handle (what a call is made with, never an amount).
+func isCtxOrKeeper(v ssa.Value) bool {
+	if v == nil {
+		return false
+	}
+	t := typeString(v.Type())
+	return strings.HasSuffix(t, "cosmos-sdk/types.Context") || strings.HasSuffix(t, "keeper.Keeper") || strings.HasSuffix(t, "keeper.msgServer") || strings.HasSuffix(t, ".AppModule")
+}
+
+// eventTypesOf: the concrete event types a typed-event emission can be handed: the static type of the argument, or -
+// when the emission sits in a helper that takes the event as an interface - the types converted to that interface at
+// the helper's call sites (parameters followed to every caller).
+func eventTypesOf(w *World, s *Site) []*types.Named {
+	if et := eventTypeOf(s); et != nil {
+		if _, isStruct := et.Underlying().(*types.Struct); isStruct {
+			return []*types.Named{et}
+		}
+	}
+	a := s.Args()
+	if len(a) == 0 {
+		return nil
+	}
+	tr := w.Tracer()
+	tr.Lift = 3
+	o := tr.Origins(a[0])
+	seen := map[*types.Named]bool{}
+	var out []*types.Named
+	for v := range o.Values {
+		mi, ok := v.(*ssa.MakeInterface)
+		if !ok {
+			continue
+		}
+		t := mi.X.Type()
+		if p, ok := t.(*types.Pointer); ok {
+			t = p.Elem()
+		}
+		n, _ := t.(*types.Named)
+		if n == nil || seen[n] {
+			continue
+		}
+		if _, isStruct := n.Underlying().(*types.Struct); !isStruct {
+			continue
+		}
+		seen[n] = true
+		out = append(out, n)
+	}
+	sort.Slice(out, func(i, j int) bool { return out[i].Obj().Name() < out[j].Obj().Name() })
+	return out
 }
 
 func eventTypeOf(s *Site) *types.Named {
@@ -64,18 +115,19 @@ func checkC18(w *World, r *Report) {
 			if cg.Atom(s) != EventEmit {
 				continue
 			}
-			et := eventTypeOf(s)
-			name := "?"
-			if et != nil {
-				name = et.Obj().Pkg().Name() + "." + et.Obj().Name()
-				if structHasField(et, "Amount") {
-					withAmount[et.Obj().Pkg().Path()+"."+et.Obj().Name()] = true
-				}
-			} else {
+			ets := eventTypesOf(w, s)
+			if len(ets) == 0 {
 				r.Unk("C18.sites", "emit in "+funcName(f), w.Pos(s.Instr.Pos()), "cannot determine the static type of the emitted event")
 				continue
 			}
-			r.Enum("C18.sites", "emit "+name+" in "+funcName(f), w.Pos(s.Instr.Pos()), "typed event")
+			for _, et := range ets {
+				if structHasField(et, "Amount") {
+					withAmount[et.Obj().Pkg().Path()+"."+et.Obj().Name()] = true
+				}
+				// one obligation per event type and emitting function: an emission helper shared by several event types
+				// counts once per type
+				r.Enum("C18.sites", "emit "+et.Obj().Pkg().Name()+"."+et.Obj().Name()+" in "+funcName(f), w.Pos(s.Instr.Pos()), "typed event")
+			}
 		}
 	}
 	handled := map[string]bool{}
@@ -95,14 +147,39 @@ func checkC18(w *World, r *Report) {
 			pos := w.Pos(fs.Store.Pos())
 			switch ev {
 			case "Mint":
-				x := intOfAmountString(fs.Store.Val)
-				ok := false
-				if ex, isEx := x.(*ssa.Extract); isEx && ex.Index == 0 {
-					if c, isC := ex.Tuple.(*ssa.Call); isC && strings.HasSuffix(callName(c.Common()), "x/cfeminter/keeper.Keeper.Mint") {
-						ok = true
+				// value identity through helpers: the string stored is a rendering of result #0 of Keeper.Mint and of
+				// nothing else, wherever the event literal is built (parameters are followed to every caller)
+				mt := w.Tracer()
+				mt.Lift = 2
+				mt.Opaque["x/cfeminter/keeper.Keeper.Mint"] = true
+				o := mt.Origins(fs.Store.Val)
+				okM, nMint := true, 0
+				why := "the mint event does not carry the amount returned by the minting routine"
+				for _, l := range o.Leaves {
+					switch {
+					case l.Kind == "const" || isCtxOrKeeper(l.V):
+					case l.Kind == "call":
+						c, _ := l.V.(*ssa.Call)
+						if c != nil && strings.HasSuffix(callName(c.Common()), "x/cfeminter/keeper.Keeper.Mint") {
+							nMint++
+						} else if c != nil && hasSuffixAny(callName(c.Common()), "math.Int.String") {
+						} else {
+							okM = false
+							why += ": " + l.String()
+						}
+					default:
+						okM = false
+						why += ": " + l.String()
 					}
 				}
-				r.Check(ok, "C18.amount", construct, pos, "Amount = String(result #0 of Keeper.Mint)", "the mint event does not carry the amount returned by the minting routine")
+				for op := range o.Ops {
+					// "+" can only append constant text here: every leaf is a constant or the Mint call
+					if !hasSuffixAny(op, "math.Int.String", "x/cfeminter/keeper.Keeper.Mint") && op != "op+" {
+						okM = false
+						why += " (operation " + shortCallee(op) + " on the way)"
+					}
+				}
+				r.Check(okM && nMint == 1 && len(o.Phis) == 0, "C18.amount", construct, pos, "Amount = String(result #0 of Keeper.Mint)", why)
 				// Keeper.Mint returns what mint() returns or zero
 				if mf := w.Func("x/cfeminter/keeper.Keeper.Mint"); mf != nil {
 					good := true
@@ -124,19 +201,42 @@ func checkC18(w *World, r *Report) {
 					r.Check(good, "C18.amount", "Keeper.Mint returns the minting routine's total or zero", w.Pos(mf.Pos()), "every return is zero (nothing minted) or result #0 of mint()", "Keeper.Mint reports something else than what mint() returned")
 				}
 			case "Distribution", "DistributionBurn":
-				v := fs.Store.Val
-				var credit *Site
-				for _, s := range cg.Sites[f] {
-					if len(s.Callees) == 0 || !strings.Contains(s.Method, "addSharesTo") {
-						continue
-					}
-					for _, a := range s.Args() {
-						if a == v {
-							credit = s
+				// the amount stored is the very value handed to the crediting helper before, in the same function - or, when
+				// the event literal is built by a constructor helper, in every caller of that helper (parameter followed up)
+				var creditedAt func(fn *ssa.Function, v ssa.Value, at ssa.Instruction, depth int) bool
+				creditedAt = func(fn *ssa.Function, v ssa.Value, at ssa.Instruction, depth int) bool {
+					for _, s := range cg.Sites[fn] {
+						if len(s.Callees) == 0 || !strings.Contains(s.Method, "addSharesTo") {
+							continue
+						}
+						for _, a := range s.Args() {
+							if a == v && (instrDominates(s.Instr, at) || s.Instr.Block() == at.Block()) {
+								return true
+							}
 						}
 					}
+					prm, isParam := v.(*ssa.Parameter)
+					if !isParam || depth >= 2 {
+						return false
+					}
+					idx := -1
+					for i, q := range fn.Params {
+						if q == prm {
+							idx = i
+						}
+					}
+					callers := cg.Callers[fn]
+					if idx < 0 || len(callers) == 0 {
+						return false
+					}
+					for _, cs := range callers {
+						if cs.Common().IsInvoke() || idx >= len(cs.Common().Args) || !creditedAt(cs.Caller, cs.Common().Args[idx], cs.Instr, depth+1) {
+							return false
+						}
+					}
+					return true
 				}
-				ok := credit != nil && (instrDominates(credit.Instr, fs.Store) || credit.Instr.Block() == fs.Store.Block())
+				ok := creditedAt(f, fs.Store.Val, fs.Store, 0)
 				r.Check(ok, "C18.amount", construct, pos, "Amount is the very value credited to the state in the same iteration", "the event amount is not the value credited to the destination")
 			case "WithdrawAvailable":
 				x := intOfAmountString(fs.Store.Val)
@@ -223,14 +323,17 @@ func checkC18(w *World, r *Report) {
 	// every distribution built for a sub-distributor is emitted
 	r.Rule("C18.emitall", "P5", "the distributor's block routine emits every Distribution returned for a sub-distributor (every iteration of the loop over the full slice) and the burn event whenever one was built", 2)
 	if bb := w.Func("x/cfedistributor.BeginBlocker"); bb != nil {
-		var sdp *ssa.Call
-		for _, s := range cg.Sites[bb] {
-			if calleeIs(s, "x/cfedistributor/keeper.Keeper.StartDistributionProcess") {
-				sdp = siteCall(s)
-			}
+		// the call that builds the events is looked for in the block routine and in its helpers
+		var sdpE *EffSite
+		for _, e := range w.effectsBelow(bb, func(s *Site) bool {
+			return calleeIs(s, "x/cfedistributor/keeper.Keeper.StartDistributionProcess")
+		}, 2) {
+			e := e
+			sdpE = &e
 		}
 		okLoop, okBurn := false, false
-		if sdp != nil {
+		if sdpE != nil {
+			sdp := siteCall(sdpE.Site)
 			var dists, burn ssa.Value
 			for _, ref := range *sdp.Referrers() {
 				if ex, ok := ref.(*ssa.Extract); ok {
@@ -242,44 +345,82 @@ func checkC18(w *World, r *Report) {
 					}
 				}
 			}
-			analyse := func(fn *ssa.Function, dists, burn ssa.Value) (bool, bool) {
+			// emitsIn: the block contains an emission - the SDK call itself or a call of a module helper that emits on
+			// every path to its return
+			var alwaysEmits func(h *ssa.Function, depth int) bool
+			emitsIn := func(b *ssa.BasicBlock, depth int) bool {
+				for _, in := range b.Instrs {
+					c, ok := in.(*ssa.Call)
+					if !ok {
+						continue
+					}
+					if strings.HasSuffix(callName(c.Common()), "EventManager.EmitTypedEvent") {
+						return true
+					}
+					if h := c.Common().StaticCallee(); h != nil && h.Blocks != nil && w.isProdFunc(h) && depth < 3 && alwaysEmits(h, depth+1) {
+						return true
+					}
+				}
+				return false
+			}
+			alwaysEmits = func(h *ssa.Function, depth int) bool {
+				return funcMustPass(h, func(b *ssa.BasicBlock) bool { return emitsIn(b, depth) })
+			}
+			// emitCallOf: the call in fn that emits value v (directly or through an always-emitting helper handed v)
+			emitCallOf := func(fn *ssa.Function, v ssa.Value) []*ssa.Call {
+				var out []*ssa.Call
+				for _, b := range fn.Blocks {
+					for _, in := range b.Instrs {
+						c, ok := in.(*ssa.Call)
+						if !ok {
+							continue
+						}
+						hasV := false
+						for _, a := range c.Common().Args {
+							if a == v {
+								hasV = true
+							}
+							if mi, ok := a.(*ssa.MakeInterface); ok && mi.X == v {
+								hasV = true
+							}
+						}
+						if !hasV {
+							continue
+						}
+						if strings.HasSuffix(callName(c.Common()), "EventManager.EmitTypedEvent") {
+							out = append(out, c)
+						} else if h := c.Common().StaticCallee(); h != nil && h.Blocks != nil && w.isProdFunc(h) && alwaysEmits(h, 1) {
+							out = append(out, c)
+						}
+					}
+				}
+				return out
+			}
+			var analyse func(fn *ssa.Function, dists, burn ssa.Value, from *ssa.BasicBlock, depth int) (bool, bool)
+			analyse = func(fn *ssa.Function, dists, burn ssa.Value, from *ssa.BasicBlock, depth int) (bool, bool) {
 				okL, okB := false, false
 				for _, l := range rangeLoops(fn) {
 					if l.Over == dists && dists != nil {
-						okL = loopEarlyExit(l) == nil && loopBodyMustPass(l, func(b *ssa.BasicBlock) bool {
-							for _, in := range b.Instrs {
-								if c, ok := in.(*ssa.Call); ok && strings.HasSuffix(callName(c.Common()), "EventManager.EmitTypedEvent") {
-									return true
-								}
-							}
-							return false
-						})
+						okL = loopEarlyExit(l) == nil && loopBodyMustPass(l, func(b *ssa.BasicBlock) bool { return emitsIn(b, 0) }) && mustFollow(from, l.Header)
 					}
 				}
 				// burn: emitted on the non-nil edge, and nothing else decides
 				if burn != nil {
-					for _, s := range cg.Sites[fn] {
-						if cg.Atom(s) == EventEmit {
-							a := s.Args()
-							if mi, ok := a[0].(*ssa.MakeInterface); ok && mi.X == burn {
-								edges := NilEdges(fn, map[ssa.Value]bool{burn: true}, false)
-								// the emit block is exactly the non-nil successor (no further condition)
-								for _, e := range edges {
-									if e.To() == s.Instr.Block() || e.To().Dominates(s.Instr.Block()) && len(e.To().Succs) <= 1 {
-										okB = true
-									}
-								}
+					for _, c := range emitCallOf(fn, burn) {
+						edges := NilEdges(fn, map[ssa.Value]bool{burn: true}, false)
+						for _, e := range edges {
+							// the emit block is exactly the non-nil successor (no further condition), and the test is always reached
+							if (e.To() == c.Block() || e.To().Dominates(c.Block()) && len(e.To().Succs) <= 1) && mustFollow(from, e.From) {
+								okB = true
 							}
 						}
 					}
 				}
-				return okL, okB
-			}
-			okLoop, okBurn = analyse(bb, dists, burn)
-			// the emission may be a helper that is handed the distributions and the burn of this sub-distributor,
-			// called unconditionally once they are known
-			if !okLoop || !okBurn {
-				for _, cs := range cg.Sites[bb] {
+				if (okL && (okB || burn == nil)) || depth >= 3 {
+					return okL, okB
+				}
+				// the emission may be a helper that is handed the distributions and the burn, called unconditionally
+				for _, cs := range cg.Sites[fn] {
 					h := cs.Common().StaticCallee()
 					if h == nil || h.Blocks == nil || !w.isProdFunc(h) || cs.Common().IsInvoke() {
 						continue
@@ -296,62 +437,135 @@ func checkC18(w *World, r *Report) {
 							bP = h.Params[i]
 						}
 					}
-					if dP == nil {
+					if dP == nil && bP == nil {
 						continue
 					}
-					// unconditional: the call sits in the block of StartDistributionProcess or in one that it dominates
-					// and that every path back to the loop header passes
-					uncond := cs.Instr.Block() == sdp.Block()
-					if !uncond && sdp.Block().Dominates(cs.Instr.Block()) {
-						uncond = true
-						for _, l := range rangeLoops(bb) {
-							if loopBlocks(l.Header)[sdp.Block()] {
-								// every path from the sdp block to the header passes the call block
-								seen := map[*ssa.BasicBlock]bool{}
-								var walk func(b *ssa.BasicBlock)
-								walk = func(b *ssa.BasicBlock) {
-									if seen[b] || b == cs.Instr.Block() {
-										return
-									}
-									seen[b] = true
-									for _, sc := range b.Succs {
-										if sc == l.Header {
-											uncond = false
-										}
-										walk(sc)
-									}
-								}
-								walk(sdp.Block())
-							}
-						}
-					}
-					if !uncond {
+					if !mustFollow(from, cs.Instr.Block()) {
 						continue
 					}
-					l2, b2 := analyse(h, dP, bP)
-					okLoop = okLoop || l2
-					okBurn = okBurn || b2
+					l2, b2 := analyse(h, dP, bP, h.Blocks[0], depth+1)
+					okL = okL || (dP != nil && l2)
+					okB = okB || (bP != nil && b2)
 				}
+				return okL, okB
 			}
+			okLoop, okBurn = analyse(sdpE.Site.Caller, dists, burn, sdp.Block(), 0)
+			// the function holding the call is itself reached unconditionally from the loop over the sub-distributors: its
+			// chain calls are not inside a branch that depends on the events (nothing to check: the events do not exist yet)
 		}
 		r.Check(okLoop, "C18.emitall", "every Distribution of the sub-distributor is emitted", w.Pos(bb.Pos()), "range over the full slice returned by StartDistributionProcess, emit on every iteration", "some distribution events are not emitted: a block's events would not add up to the inflow")
 		r.Check(okBurn, "C18.emitall", "the DistributionBurn is emitted whenever it was built", w.Pos(bb.Pos()), "emitted on the burn != nil edge", "the burn event can be dropped")
 	} else {
 		r.Unk("infra.anchor", "x/cfedistributor.BeginBlocker", "", "anchor not found")
 	}
-	// mint event only after a successful Mint
+	// mint event only after a successful Mint: the emission and the call of Mint are looked for in the block routine and
+	// its helpers; on every path the failure of Mint ends the block (C01.abort) before the emission can run
 	if bb := w.Func("x/cfeminter.BeginBlocker"); bb != nil {
-		for _, s := range cg.Sites[bb] {
-			if cg.Atom(s) != EventEmit {
-				continue
+		isMint := func(s *Site) bool { return calleeIs(s, "x/cfeminter/keeper.Keeper.Mint") }
+		effs := w.effectsBelow(bb, func(s *Site) bool { return isMint(s) || cg.Atom(s) == EventEmit }, 2)
+		var mints, emits []EffSite
+		for _, e := range effs {
+			if isMint(e.Site) {
+				mints = append(mints, e)
+			} else {
+				emits = append(emits, e)
 			}
-			var mints []ssa.Value
-			for _, s2 := range cg.Sites[bb] {
-				if calleeIs(s2, "x/cfeminter/keeper.Keeper.Mint") {
-					mints = append(mints, siteValue(s2))
+		}
+		for _, e := range emits {
+			ok := len(mints) == 1 && effDominates(mints[0], e)
+			if ok {
+				// the failure edge of Mint never continues: in the function that calls Mint every failing edge ends in
+				// a panic / error return; when that function is a helper its error result (if any) is checked likewise
+				m := mints[0]
+				fn := m.Site.Caller
+				ev := errValues(fn, siteValue(m.Site))
+				fail := NilEdges(fn, ev, false)
+				if len(fail) == 0 {
+					ok = false
+				}
+				for _, fe := range fail {
+					if !FailsFrom(fe.To()) {
+						ok = false
+					}
+				}
+				if len(m.Chain) > 0 && ok {
+					// the helper must not return normally on the failure edge with a swallowed error: FailsFrom demands a
+					// panic or a non-nil error return; a returned error must fail in the caller too
+					for lvl := len(m.Chain) - 1; lvl >= 0; lvl-- {
+						cs := m.Chain[lvl]
+						cev := errValues(cs.Caller, siteValue(cs))
+						if len(cev) == 0 {
+							continue // the helper has no error result: it can only have panicked
+						}
+						cf := NilEdges(cs.Caller, cev, false)
+						if len(cf) == 0 {
+							ok = false
+						}
+						for _, fe := range cf {
+							if !FailsFrom(fe.To()) {
+								ok = false
+							}
+						}
+					}
 				}
 			}
-			r.Check(len(mints) == 1 && OnSuccessEdge(bb, s.Instr, mints...), "C18.guard", "Mint event only after Keeper.Mint succeeded", w.Pos(s.Instr.Pos()), "dominated by the nil edge of Mint's error", "the mint event can be emitted although minting failed")
+			r.Check(ok, "C18.guard", "Mint event only after Keeper.Mint succeeded", w.Pos(e.Site.Instr.Pos()), "Mint precedes the emission and its failure edge ends the block", "the mint event can be emitted although minting failed")
 		}
 	}
+}
+
+// funcMustPass: every path from the entry of fn to a return passes a block satisfying has (paths that end in a
+// panic are not counted).
+func funcMustPass(fn *ssa.Function, has func(*ssa.BasicBlock) bool) bool {
+	if len(fn.Blocks) == 0 {
+		return false
+	}
+	seen := map[*ssa.BasicBlock]bool{}
+	stack := []*ssa.BasicBlock{fn.Blocks[0]}
+	for len(stack) > 0 {
+		b := stack[len(stack)-1]
+		stack = stack[:len(stack)-1]
+		if seen[b] || b == fn.Recover {
+			continue
+		}
+		seen[b] = true
+		if has(b) {
+			continue
+		}
+		if len(b.Instrs) > 0 {
+			if _, isRet := b.Instrs[len(b.Instrs)-1].(*ssa.Return); isRet {
+				return false
+			}
+		}
+		stack = append(stack, b.Succs...)
+	}
+	return true
+}
+
+// mustFollow: once block `from` has executed, block `target` executes before the function returns and before `from`
+// executes again (target == from counts).
+func mustFollow(from, target *ssa.BasicBlock) bool {
+	if from == target {
+		return true
+	}
+	seen := map[*ssa.BasicBlock]bool{}
+	stack := append([]*ssa.BasicBlock{}, from.Succs...)
+	for len(stack) > 0 {
+		b := stack[len(stack)-1]
+		stack = stack[:len(stack)-1]
+		if b == target || seen[b] {
+			continue
+		}
+		if b == from {
+			return false
+		}
+		seen[b] = true
+		if len(b.Instrs) > 0 {
+			if _, isRet := b.Instrs[len(b.Instrs)-1].(*ssa.Return); isRet {
+				return false
+			}
+		}
+		stack = append(stack, b.Succs...)
+	}
+	return true
 }
